@@ -267,6 +267,12 @@ def hmc_reversibility(V, h, L, seed, n, stats):
     excursion = float(np.max(np.abs(t0)) + np.max(w) + eps * n * np.max(np.abs(v0)) * 2)
     tol_t = 256 * np.finfo(float).eps * excursion * (n + 2)
     tol_r = 1e-9 * (1 + float(np.max(np.abs(r0))))
+    if tol_t > 1e-3 * float(np.min(w)):
+        # the raw excursion is so long that floating point no longer resolves positions inside the box
+        # (nor the parity of the fold count): nothing meaningful to compare
+        stats["hmc_reversibility_skipped_unresolvable"] += 1
+        stats["hmc_reversibility_checked"] -= 1
+        return
     if not flat:
         smin = float(np.min(np.array(h.cfg["target"].get("s", [1.0] * h.d), dtype=float)))
         tol_t *= 10
